@@ -44,10 +44,19 @@ impl Api for Server {
   }
 
   fn get_blockchain_info(&self) -> Result<GetBlockchainInfoResult, jsonrpc_core::Error> {
+    #[cfg(feature = "verif")]
+    let headers = {
+      let hashes = self.state().hashes.len();
+      crate::verif::headers(hashes)
+    };
+
     Ok(GetBlockchainInfoResult {
       chain: self.network,
       blocks: 0,
+      #[cfg(not(feature = "verif"))]
       headers: 0,
+      #[cfg(feature = "verif")]
+      headers,
       best_block_hash: self.state().hashes[0],
       difficulty: 0.0,
       median_time: 0,
